@@ -16,7 +16,10 @@ import ps
 ALLOWED_AXIOMS = {
     # per property: axioms of the standard library that may appear in Print Assumptions
     "C18": ["ClassicalDedekindReals.sig_forall_dec", "ClassicalDedekindReals.sig_not_dec",
-            "FunctionalExtensionality.functional_extensionality_dep", "Classical_Prop.classic"],
+            "FunctionalExtensionality.functional_extensionality_dep", "Classical_Prop.classic",
+            # the standard library's primitive 63-bit integers and their specification axioms (Coq.Numbers.Cyclic.Int63),
+            # used by coq-interval's big-number arithmetic in the four ln enclosures of each block
+            "Uint63.*", "PrimInt63.*"],
 }
 
 
@@ -68,9 +71,9 @@ def proof_stage(pid):
     for a in assum:
         if a.startswith("Closed under"):
             continue
-        axs = re.findall(r"^([A-Za-z0-9_.']+)\s*:", a, flags=re.M)
+        axs = [x for x in re.findall(r"^([A-Za-z0-9_.']+)\s*:", a, flags=re.M) if x != "Axioms"]
         for ax in axs:
-            if ax not in allowed:
+            if ax not in allowed and not any(p.endswith("*") and ax.startswith(p[:-1]) for p in allowed):
                 res["ok"] = False
                 res["broken"].append("unexpected axiom in Print Assumptions: " + ax)
     if res["problems"]:
